@@ -480,10 +480,13 @@ def c20_compare_spec(il, sl, meta, exempt):
 
 
 PROPS["C20"] = {
-    "rule": "for every pool schema and both optional-member policies (absent members written as null / left out): the spec-conformant introspection result rendered from the schema; 8 structural mutations of it at random positions (remove a member, change a kind tag, wrong JSON type, duplicate a member, null a required member, extra unknown member, reorder members, strings with 1..4-byte characters / escapes / control characters in descriptions and deprecation reasons); hand-made edge cases; the bundled real-world results (product; thorough: github, shopify). Implementation: parse_introspection_from_string, then parse_introspection through readers delivering 1, 2, 3, 4, 5, 7, 13, 4096 and all bytes per read (outcome must equal the string parse), readers failing at every byte offset for inputs up to 1500 bytes, at 1500 (inputs over 20000 bytes: 40) evenly spaced offsets beyond (must give Err, no panic), serialise + parse again (same structure). Compared: Ok/Err and the parsed structure as a JSON tree (serde_json::to_value) with the extracted model's decode_query/encode_query, and for pristine rendered results with the specification's abstract_normal pol s. distinct = distinct JSON texts; non-trivial = parses Ok and has at least 5 types, or is a mutated result that is rejected",
+    "rule": "for every pool schema and both optional-member policies (absent members written as null / left out): the spec-conformant introspection result rendered from the schema; 8 structural mutations of it at random positions (remove a member, change a kind tag, wrong JSON type, duplicate a member, null a required member, extra unknown member, reorder members, strings with 1..4-byte characters / escapes / control characters in descriptions and deprecation reasons); hand-made edge cases; hand-made spec-conformant results (all 19 directive locations one by one and together, optional members present / null / absent, deprecations, default values, deep ofType chains, an interface without implementers) which must parse; the bundled real-world results (product; thorough: github, shopify). Implementation: parse_introspection_from_string, then parse_introspection through readers delivering 1, 2, 3, 4, 5, 7, 13, 4096 and all bytes per read (outcome must equal the string parse), readers failing at every byte offset for inputs up to 1500 bytes, at 1500 (inputs over 20000 bytes: 40) evenly spaced offsets beyond (must give Err, no panic), serialise + parse again (same structure). Compared: Ok/Err and the parsed structure as a JSON tree (serde_json::to_value) with the extracted model's decode_query/encode_query, and for pristine rendered results with the specification's abstract_normal pol s. distinct = distinct JSON texts; non-trivial = parses Ok and has at least 5 types, or is a mutated result that is rejected",
     "compare_model": c20_compare_model,
     "compare_spec": c20_compare_spec,
     "impl_oracle": no_bad_lines,
+    # results known to be spec-conformant (hand-made from the specification's grammar of the result,
+    # and the bundled real-world ones) must parse
+    "impl_oracle_meta": lambda il, meta: not (meta.get("family") in ("hand-made-conformant", "bundled-real-world", "rendered") and (not il or il[0] != "OK")),
     "nontrivial": lambda il, meta: (bool(il) and il[0] == "OK" and meta.get("doc", "").count('"kind":"OBJECT"') + meta.get("doc", "").count('"kind":"SCALAR"') >= 5) or (bool(il) and il[0] == "ERR" and meta.get("family", "").startswith("mutated")),
     "partial": "byte-level JSON reading, reader chunking and injected I/O errors are serde_json's and are exercised on the implementation only (CHUNKS / FAULTS lines, implementation-side assertion); the theorems are about JSON trees: round trip, losslessness of the rendered result of every well-formed schema, recovery of every listed detail, no duplicate keys; acceptance is characterised at every level (C20_decode_iff_shape) with the five rejection corollaries; invariance under member order / unknown members is proved for a typed relation (C20_invariance_partial: member order inside default VALUES matters, closed counterexample); Float default values are exempt from the oracle (printed differently by design of the oracle's printer)",
     "trusted_extra": ["serde / serde_json derive behaviour (struct-from-object, struct-from-array, internally tagged enums incl. integer tags in buffered content, Option, duplicate keys) as modelled in theories/Introspection.v from probes of serde 1.0.215 / serde_json 1.0.132; tied by the correspondence run on every check"],
